@@ -953,7 +953,7 @@ pub fn c14s_check(sc: &SScenario) -> CaseResult {
     ops.push(SOp::Drain);
     let run = run_server(&sc.cfg, &ops, false);
     let v = SView::new(&run);
-    match super::contract::check_contract(&run.recs, 1, 0, sc.cfg.independent) {
+    match super::contract::check_contract(&run.recs, 1, 0, sc.cfg.independent, true) {
         Err(m) => fail(&v, format!("server channel: {m}")),
         Ok(st) => {
             if let Some((t, m)) = run.panics.first() {
